@@ -103,6 +103,8 @@ def handle : List String → String
     | some sp, some p =>
       let m := match encode sp p with | some b => hex b | none => "raise"
       if res == "fault" then "specviol runtime-fault-in-encoder"
+      else if res == "partial" then "specviol the encoder raised an exception after it had already passed part of the frame down the pipeline (a frame is emitted whole or not at all)"
+      else if _carrier == "8" then (if res == "raise" then "ok" else s!"specviol a body stream that failed half way was encoded as a frame: {res.take 80}")
       else if res == "raise" then (if m == "raise" then "ok" else s!"diff enc model={m.take 80} impl=raise")
       else match unhex res with
         | none => "bad-op"
